@@ -143,10 +143,10 @@ func (gw *inclusiveGateway) run(ctx context.Context, sender tracing.ISenderHandl
 							},
 						})
 					} else {
-						distributeFlows(gw.sync, []*SequenceFlow{gw.defaultSequenceFlow})
+						distributeFlows(ctx, gw.sync, []*SequenceFlow{gw.defaultSequenceFlow})
 					}
 				default:
-					distributeFlows(gw.sync, sfs)
+					distributeFlows(ctx, gw.sync, sfs)
 				}
 				gw.synchronized = false
 				gw.activated = nil
@@ -170,14 +170,14 @@ func (gw *inclusiveGateway) run(ctx context.Context, sender tracing.ISenderHandl
 						gw.arrived = append(gw.arrived, m.flow.Id())
 						gw.sync = append(gw.sync, m.response)
 					}
-					gw.trySync()
+					gw.trySync(ctx)
 				}
 			}
 		case <-activity:
 			verifhook.Point("gw.inclusive.activity")
 			if !gw.synchronized && gw.activated != nil {
 				gw.awaiting = gw.flowTracker.activeFlowsInCohort(gw.activated.flow.Id())
-				gw.trySync()
+				gw.trySync(ctx)
 			}
 		case <-ctx.Done():
 			gw.tracer.Send(CancellationFlowNodeTrace{Node: gw.element})
@@ -186,7 +186,7 @@ func (gw *inclusiveGateway) run(ctx context.Context, sender tracing.ISenderHandl
 	}
 }
 
-func (gw *inclusiveGateway) trySync() {
+func (gw *inclusiveGateway) trySync(ctx context.Context) {
 	if !gw.synchronized && len(gw.arrived) >= len(gw.awaiting) {
 		// Have we got everybody?
 		matches := 0
@@ -200,7 +200,7 @@ func (gw *inclusiveGateway) trySync() {
 		if matches == len(gw.awaiting) {
 			anId := gw.activated.flow.Id()
 			// Probe outgoing sequence flow using the first flow
-			gw.activated.response <- probeAction{
+			deliverAction(ctx, gw.activated.response, probeAction{
 				sequenceFlows: gw.nonDefaultSequenceFlows,
 				probeReport: func(indices []int) {
 					gw.mch <- gatewayProbingReport{
@@ -208,7 +208,7 @@ func (gw *inclusiveGateway) trySync() {
 						flowId: anId,
 					}
 				},
-			}
+			})
 
 			gw.synchronized = true
 		}
